@@ -22,6 +22,7 @@ import (
 	crypt "crypto"
 	"errors"
 	"fmt"
+	"reflect"
 	"strings"
 	"time"
 
@@ -79,6 +80,13 @@ func (sv *signatureVerifier) jsonldProof(documentToVerify any, issuer string, at
 		return newVerificationError("invalid LD-JSON document: %w", err)
 	}
 
+	// Go's JSON decoder matches member names to struct fields case-insensitively, JSON-LD does not: a member like
+	// "verifiablecredential" is read as the presentation's credentials, but to the JSON-LD processor it is an unknown member,
+	// which is dropped during canonicalization and thus not protected by the signature.
+	if member := caseVariantMember(signedDocument, documentToVerify); member != "" {
+		return newVerificationError("invalid LD-JSON document: member '%s' only differs by case from a known member", member)
+	}
+
 	ldProof := proof.LDProof{}
 	if err = signedDocument.UnmarshalProofValue(&ldProof); err != nil {
 		return newVerificationError("unsupported proof type: %w", err)
@@ -118,6 +126,31 @@ func (sv *signatureVerifier) jsonldProof(documentToVerify any, issuer string, at
 		return newVerificationError("invalid signature: %w", err)
 	}
 	return nil
+}
+
+// caseVariantMember returns the name of a member of the JSON document that is not a (JSON) member of the type it was decoded into,
+// but was decoded into one of its fields nevertheless, because encoding/json matches member names case-insensitively.
+// It returns an empty string if there is no such member.
+func caseVariantMember(document proof.SignedDocument, decodedInto any) string {
+	structType := reflect.TypeOf(decodedInto)
+	for structType != nil && structType.Kind() == reflect.Pointer {
+		structType = structType.Elem()
+	}
+	if structType == nil || structType.Kind() != reflect.Struct {
+		return ""
+	}
+	for i := 0; i < structType.NumField(); i++ {
+		name, _, _ := strings.Cut(structType.Field(i).Tag.Get("json"), ",")
+		if name == "" || name == "-" {
+			continue
+		}
+		for member := range document {
+			if member != name && strings.EqualFold(member, name) {
+				return member
+			}
+		}
+	}
+	return ""
 }
 
 func (sv *signatureVerifier) jwtSignature(jwtDocumentToVerify string, issuer string, at *time.Time) error {
